@@ -4,6 +4,7 @@ import (
 	"fmt"
 	"go/token"
 	"go/types"
+	"regexp"
 	"strings"
 
 	"golang.org/x/tools/go/ssa"
@@ -24,6 +25,7 @@ func runC05Gaps2(c *eng.Ctx) {
 	c05RoleMerge(c)
 	c05RestoreLegs(c)
 	c05RevocationHandOver(c)
+	c05ForgetAfterDelete(c)
 	c05Timer(c)
 	c05RegisterRollback(c)
 }
@@ -790,4 +792,126 @@ func c05VerdictOf(v ssa.Value, sites []ssa.CallInstruction) bool {
 		}
 	}
 	return true
+}
+
+// ---------- C05.12 a lease is forgotten only after it is durably gone
+//
+// The in-memory tracking of a lease (the pending / nonexpiring / irrevocable
+// sets) is what gets a stored lease revoked and, when that fails, retried or
+// marked irrevocable. revokeCommon therefore deletes the stored entry FIRST and
+// forgets the lease only across the success of that delete: if the delete
+// fails the lease is still pending and revocationJob.OnFailure finds it (seed
+// C05-f moved the delete behind the untracking: a failed delete then leaves a
+// stored, expired lease in none of the sets until the next restore).
+//
+// An untracking operation is a call of removeFromPending, or Delete / Clear /
+// LoadAndDelete / CompareAndDelete on the sync.Map that is the field pending,
+// nonexpiring or irrevocable of the ExpirationManager (identified by the field,
+// not by how the receiver is written). Who may untrack is tabled; siblings:
+//   - revokeCommon: decided here (Tidy, Revoke, LazyRevoke's worker, RevokeByToken
+//     and the expiry job all forget a lease through revokeCommon only);
+//   - removeFromPending: the operation itself, its callers are in this table;
+//   - updatePendingInternal / markLeaseIrrevocable: MOVE a lease between the sets
+//     (decided by C05.4 "every lease is filed somewhere" and C05.12 "irrevocable.Store
+//     before the removal from pending");
+//   - Stop / StopNamespace: drop tracking by design when the manager / the namespace
+//     is sealed; Restore re-creates it from storage.
+func c05ForgetAfterDelete(c *eng.Ctx) {
+	sets := map[*types.Var]string{}
+	for _, n := range []string{"pending", "nonexpiring", "irrevocable"} {
+		fv := c.P.Field("vault.ExpirationManager." + n)
+		if fv == nil {
+			c.Unresolved("vault.ExpirationManager." + n)
+			return
+		}
+		sets[fv] = n
+	}
+	// the set a sync.Map method call operates on ("" when it is none of the three)
+	setOf := func(recv ssa.Value, fr *nfFrame) string {
+		v, _ := c18Val(recv, fr)
+		for depth := 0; depth < 4 && v != nil; depth++ {
+			switch x := v.(type) {
+			case *ssa.FieldAddr:
+				if fv := eng.FieldVar(x); fv != nil {
+					if n, ok := sets[fv]; ok {
+						return n
+					}
+					if n, ok := sets[fv.Origin()]; ok {
+						return n
+					}
+				}
+				return ""
+			case *ssa.Phi:
+				if len(x.Edges) == 0 {
+					return ""
+				}
+				v = x.Edges[0]
+			default:
+				return ""
+			}
+		}
+		return ""
+	}
+	const mapOps = `^sync\.\(\*Map\)\.(Delete|Clear|LoadAndDelete|CompareAndDelete)$`
+	const rmPending = `^vault\.\(\*ExpirationManager\)\.removeFromPending$`
+	untrackIn := func(f *ssa.Function) []c18Site {
+		var out []c18Site
+		out = append(out, c18Calls(f, rmPending)...)
+		for _, s := range c18Calls(f, mapOps) {
+			for _, e := range s.Effs {
+				if len(e.Call.Args) > 0 && setOf(e.Call.Args[0], e.Fr) != "" {
+					out = append(out, s)
+					break
+				}
+			}
+		}
+		return out
+	}
+
+	// ---- revokeCommon: forget only across the success of the durable delete
+	if f := c.Fn("vault.(*ExpirationManager).revokeCommon"); f != nil {
+		c.Clause("R3", "C05.12")
+		forget := untrackIn(f)
+		del := c18Plain(c18Calls(f, `^vault\.\(\*ExpirationManager\)\.deleteEntry$`))
+		if c.Floor(f, "untracking of the revoked lease (removeFromPending, nonexpiring.Delete, irrevocable.Delete)", len(forget), 3) &&
+			c.Floor(f, "deleteEntry of the revoked lease", len(del), 1) {
+			c.Cut(f, "the lease is forgotten (removed from pending / nonexpiring / irrevocable)", c18Ats(forget), c18GCallOK(f, `^vault\.\(\*ExpirationManager\)\.deleteEntry$`), nil)
+			// ... and the entry deleted is the one that was loaded and revoked
+			c.Clause("R5", "C05.12")
+			for _, d := range del {
+				for _, e := range d.Effs {
+					c18Prov(c, f, "lease entry deleted from storage before it is forgotten", d.At, e.Call.Args[2], e.Fr, `^call:vault\.\(\*ExpirationManager\)\.loadEntry#0$`)
+				}
+			}
+		}
+	}
+
+	// ---- who may untrack at all
+	c.Clause("R1", "C05.12")
+	allowed := map[string]string{
+		"vault.(*ExpirationManager).revokeCommon":          "forgets the lease across the success of deleteEntry (decided above)",
+		"vault.(*ExpirationManager).removeFromPending":     "the operation itself; its callers are in this table",
+		"vault.(*ExpirationManager).updatePendingInternal": "moves a lease between the tracking sets (C05.4: every lease is filed somewhere)",
+		"vault.(*ExpirationManager).markLeaseIrrevocable":  "moves a lease to the irrevocable set (Store before the removal)",
+		"vault.(*ExpirationManager).Stop":                  "seal: all tracking is dropped by design, Restore rebuilds it from storage",
+		"vault.(*ExpirationManager).StopNamespace":         "a namespace is stopped: its tracking is dropped by design",
+	}
+	var sites []eng.CallSite
+	for _, fn := range c.P.Funcs {
+		if !eng.InPkg(fn, "vault") || len(fn.Blocks) == 0 {
+			continue
+		}
+		for _, in := range nfAllCalls(fn) {
+			nc := nfCallOf(in)
+			switch {
+			case regexp.MustCompile(rmPending).MatchString(nc.Name):
+				sites = append(sites, eng.CallSite{Fn: fn, Call: in})
+			case regexp.MustCompile(mapOps).MatchString(nc.Name):
+				if len(nc.Args) > 0 && setOf(nc.Args[0], nil) != "" {
+					sites = append(sites, eng.CallSite{Fn: fn, Call: in})
+				}
+			}
+		}
+	}
+	c.CallerTable("untracking of a lease (removeFromPending, Delete/Clear on pending / nonexpiring / irrevocable)", sites, allowed, 8)
 }
